@@ -183,6 +183,39 @@ func CheckThesaurus(r *Report, tag string, seg segment.Segment, m *model.Seg, o 
 						r.Fail("thes-missing", "%s: term %q except %v: pair (%q, doc %d) missing", where, term, ex, h.Syn, h.Doc)
 					}
 				}
+				// two iterators of the same list, the first one paused while the second runs:
+				// each yields every pair once
+				if len(want) >= 2 && ei%3 == 0 {
+					a := l.Iterator(nil)
+					seenA := map[model.SynHit]int{}
+					if s, err := a.Next(); err == nil && s != nil {
+						seenA[model.SynHit{Syn: s.Term(), Doc: s.Number()}]++
+					}
+					b := l.Iterator(nil)
+					nb := 0
+					for {
+						s, err := b.Next()
+						if err != nil || s == nil {
+							break
+						}
+						nb++
+					}
+					for {
+						s, err := a.Next()
+						if err != nil || s == nil {
+							break
+						}
+						seenA[model.SynHit{Syn: s.Term(), Doc: s.Number()}]++
+					}
+					bad := nb != len(want) || len(seenA) != len(want)
+					for h, n := range seenA {
+						bad = bad || !want[h] || n != 1
+					}
+					if bad {
+						r.Fail("thes-two-iterators", "%s: term %q except %v: a paused iterator and a second iterator of the same list yield %d and %d pairs (%v), want %d each", where, term, ex, len(seenA), nb, seenA, len(want))
+					}
+					r.Inc("syn_lists_with_two_iterators", 1)
+				}
 				r.Inc("syn_pairs_compared", int64(len(want)))
 				r.Inc("syn_lookups", 1)
 				if sl0, ok := l.(segment.SynonymsList); ok {
